@@ -1238,7 +1238,8 @@ fn builtin_rand(args: Vec<Rc<Object>>) -> Result<Rc<Object>, String> {
             if !n.is_finite() || *n < 0. {
                 return Err(String::from("argument should be finite and not negative"));
             }
-            let r = rng.gen_range(0.0..=*n) as f64;
+            // (scaling a unit sample cannot overflow, unlike a uniform range up to f64::MAX)
+            let r = rng.gen::<f64>() * *n;
             Ok(Rc::new(Object::Float(r)))
         }
         _ => Err(String::from("unsupported argument")),
